@@ -4,7 +4,7 @@
 From Coq Require Import List Bool ZArith.
 From Coq.Strings Require Import Byte.
 Import ListNotations.
-From SV Require Import Text G_c03 C03_Model C03_Lemmas C03_Fts C03_Hits C03_Chain C03_Write C03_Cli C03_Session C03_Resolve.
+From SV Require Import Text G_c03 C03_Model C03_Lemmas C03_Fts C03_Hits C03_Chain C03_Write C03_Cli C03_Session C03_Resolve C03_Dispatch.
 
 (* the modelled chains are the regenerated priority lists FMTS_ALL, which start with FMTS *)
 Theorem C03_chains_pinned :
@@ -464,6 +464,56 @@ Example C03_witness_resolve_run :
   resolve_run 9 demo_fs [] [] true (bs "nothing*"%bs) ANone = RErr /\
   simple_name [] [] ANone (bs "d/c[1].fa"%bs) = true.
 Proof. exact witness_resolve_run. Qed.
+
+(* ---- which plugin function read / iter_ / write(mode=) call; which file objects get a text layer *)
+Theorem C03_dispatch_support :
+  forallb (fun s => can (dispatch_read (snd s)) && can (dispatch_iter (snd s))) SUPPORT_seqs = true /\
+  forallb (fun s => can (dispatch_read_fts (snd s))) SUPPORT_fts = true /\
+  map fst SUPPORT_seqs = map fst PLUGINS_seqs /\ map fst SUPPORT_fts = map fst PLUGINS_fts.
+Proof. exact dispatch_support. Qed.
+Print Assumptions C03_dispatch_support.
+
+Theorem C03_read_dispatch_spec : forall r i w a,
+  (dispatch_read (r, (i, (w, a))) = PNoSupport <-> r = false /\ i = false) /\
+  (dispatch_iter (r, (i, (w, a))) = PNoSupport <-> r = false /\ i = false) /\
+  (r = true -> dispatch_read (r, (i, (w, a))) = PRead) /\ (i = true -> dispatch_iter (r, (i, (w, a))) = PIter) /\
+  (r = false -> i = true -> dispatch_read (r, (i, (w, a))) = PIter) /\ (i = false -> r = true -> dispatch_iter (r, (i, (w, a))) = PRead).
+Proof. exact read_dispatch_spec. Qed.
+Print Assumptions C03_read_dispatch_spec.
+
+Theorem C03_write_dispatch_spec : forall mode r i w a,
+  dispatch_write mode (r, (i, (w, a))) =
+    match a, w, has_a mode, has_w mode with
+    | true, _, true, _ => PAppend
+    | _, true, _, _ => PWrite
+    | true, false, false, true => PAppend
+    | _, _, _, _ => PNoSupport
+    end.
+Proof. exact write_dispatch_spec. Qed.
+Print Assumptions C03_write_dispatch_spec.
+
+(* the converter's readable / writable are these dispatches with the default mode *)
+Theorem C03_write_default_mode : forall w0 f s, lookup_support f (support_tab w0) = Some s ->
+  (writable w0 f = None <-> dispatch_write (bs "w"%bs) s <> PNoSupport) /\
+  (readable w0 f = None <-> dispatch_read s <> PNoSupport).
+Proof. exact write_default_mode. Qed.
+Print Assumptions C03_write_default_mode.
+
+Theorem C03_is_binary_handle_spec : forall io_binary has_encoding mode_b,
+  (io_binary = true -> is_binary_handle io_binary has_encoding mode_b = true) /\
+  (io_binary = false -> has_encoding = true -> is_binary_handle io_binary has_encoding mode_b = false) /\
+  (io_binary = false -> has_encoding = false -> is_binary_handle io_binary has_encoding mode_b = mode_b).
+Proof. exact is_binary_handle_spec. Qed.
+Print Assumptions C03_is_binary_handle_spec.
+
+Example C03_witness_dispatch :
+  dispatch_write (bs "w"%bs) (false, (true, (false, true))) = PAppend /\
+  dispatch_write (bs "a"%bs) (true, (false, (true, false))) = PWrite /\
+  dispatch_write (bs "x"%bs) (false, (true, (false, true))) = PNoSupport /\
+  dispatch_read (false, (true, (false, true))) = PIter /\
+  dispatch_iter (true, (false, (true, false))) = PRead /\
+  is_binary_handle false false true = true.
+Proof. exact witness_dispatch. Qed.
 
 (* non-vacuity: concrete contents satisfying the hypotheses, and the documented BLAST / MMseqs2 discriminator at work *)
 Example C03_witness_shapes :
